@@ -152,6 +152,10 @@ func (g *j5Gen) entityPlan(pkg string, k *j5Known, style int, nWords int) *jEnti
 	e.Statuses = all[:1+rng.Intn(len(all))]
 	// events
 	evNames := []string{"Created", "Updated", "Archived", "LineAdded"}
+	if rng.Intn(3) == 0 {
+		// names a case library would re-spell
+		evNames = []string{"URLChanged", "KYCApproved", "Sent2fa", "IDVerified"}
+	}
 	for i := 0; i < rng.Intn(4); i++ {
 		e.Events = append(e.Events, &jEvent{Name: evNames[i], Fields: g.fields(k, rng.Intn(3), "")})
 	}
